@@ -1,0 +1,13 @@
+// SPDX-FileCopyrightText: 2022 Kalle Fagerberg
+//
+// SPDX-License-Identifier: MIT
+
+//go:build !verif
+
+package sync2
+
+func verifYield(label string) {}
+
+func verifYieldKey(label string, key any) {}
+
+func verifYieldObj(label string, obj any) {}
